@@ -7,6 +7,7 @@ import XsdataModel.Proofs.Codec
 import XsdataModel.Proofs.SortL
 import XsdataModel.Proofs.QNameL
 import XsdataModel.Proofs.EnumL
+import XsdataModel.Proofs.DecimalL
 
 namespace Props.C05
 open Py Xs.Conv Xs.Spec
@@ -156,6 +157,71 @@ theorem b64_rt (e : Env) (bs : Bytes) (h : AllBytes bs) (s' : Str)
   exact ⟨hs, b64_accepts e _ s' bs hv hws⟩
 
 example : AllBytes [0, 255, 65] := by intro b hb; simp at hb; omega
+
+/-! ## xs:decimal -/
+
+/-- `DecimalConverter.serialize` of a finite Decimal `±c × 10^x` is an xs:decimal
+lexical form (no exponent, no `E`) denoting the same number, written with
+coefficient `c × 10^max(x,0)` and exponent `min(x,0)` -/
+theorem decimal_ser_valid (neg : Bool) (c : Nat) (x : Int) :
+    XsdDecimal (decimalSerialize (.fin neg c x)) neg (c * 10 ^ x.toNat) (min x 0) := by
+  have hspec : Tables.decFormatSpec = ['f'] := by decide
+  simp only [decimalSerialize, hspec, if_true]
+  exact formatF_valid neg c x
+
+/-- every xs:decimal lexical form (optional sign, leading/trailing zeros, `.5`,
+`5.`), with XSD white space around it, is read as exactly the decimal it denotes -/
+theorem decimal_accepts (e : Env) (pre post s : Str) (neg : Bool) (c : Nat) (x : Int)
+    (hpre : AllXsdSpace pre) (hpost : AllXsdSpace post) (h : XsdDecimal s neg c x) :
+    decimalDeserialize e (pre ++ s ++ post) = some (.fin neg c x) :=
+  decimalParse_lex e pre post s neg c x hpre hpost h
+
+/-- what a finite Decimal is read back as … -/
+theorem decimal_rt (e : Env) (neg : Bool) (c : Nat) (x : Int) :
+    decimalDeserialize e (decimalSerialize (.fin neg c x)) = some (.fin neg (c * 10 ^ x.toNat) (min x 0)) := by
+  have := decimal_accepts e [] [] _ neg _ _ (by intro c h; cases h) (by intro c h; cases h)
+    (decimal_ser_valid neg c x)
+  simpa using this
+
+/-- … which is the same number (`Decimal.__eq__`), for every sign, coefficient and exponent -/
+theorem decimal_rt_value (neg : Bool) (c : Nat) (x : Int) :
+    (Dec.fin neg (c * 10 ^ x.toNat) (min x 0)).pyEq (.fin neg c x) = true := by
+  have key : scaled neg (c * 10 ^ x.toNat) (min x 0) (min (min x 0) x)
+      = scaled neg c x (min (min x 0) x) := by
+    unfold scaled
+    by_cases hx : x ≥ 0
+    · have h1 : min x 0 = 0 := by omega
+      have h2 : min (0 : Int) x = 0 := by omega
+      simp only [h1, h2, Int.sub_zero, Int.toNat_zero, Nat.pow_zero, Nat.mul_one]
+    · have h1 : min x 0 = x := by omega
+      have h2 : x.toNat = 0 := by omega
+      simp only [h1, h2, Nat.pow_zero, Nat.mul_one, Int.min_self]
+  have key' : scaled neg c x (min x (min x 0)) = scaled neg (c * 10 ^ x.toNat) (min x 0) (min x (min x 0)) := by
+    have : min x (min x 0) = min (min x 0) x := by omega
+    rw [this, key]
+  simp only [Dec.pyEq, finLe, key, key', Bool.and_eq_true, decide_eq_true_eq]
+  omega
+
+/-- infinities are written `INF` / `-INF` (not xs:decimal values) and read back -/
+theorem decimal_inf_rt (e : Env) (neg : Bool) :
+    decimalDeserialize e (decimalSerialize (.inf neg)) = some (.inf neg) := by
+  have ns : ∀ c, isAscii c = true → isAsciiSpace c = false → e.isSpace c = false := by
+    intro c h1 h2; rw [isSpace_ascii e c h1]; exact h2
+  cases neg with
+  | false =>
+    have hs : decimalSerialize (.inf false) = ['I', 'N', 'F'] := by decide
+    have ht : e.strip ['I', 'N', 'F'] = ['I', 'N', 'F'] := stripBy_tight _ _ (Or.inr
+      ⟨⟨'I', _, rfl, ns _ (by decide) (by decide)⟩, ⟨['I', 'N'], 'F', rfl, ns _ (by decide) (by decide)⟩⟩)
+    simp only [decimalDeserialize, decimalParse, hs, ht]
+    rw [if_pos (by decide)]
+    decide
+  | true =>
+    have hs : decimalSerialize (.inf true) = ['-', 'I', 'N', 'F'] := by decide
+    have ht : e.strip ['-', 'I', 'N', 'F'] = ['-', 'I', 'N', 'F'] := stripBy_tight _ _ (Or.inr
+      ⟨⟨'-', _, rfl, ns _ (by decide) (by decide)⟩, ⟨['-', 'I', 'N'], 'F', rfl, ns _ (by decide) (by decide)⟩⟩)
+    simp only [decimalDeserialize, decimalParse, hs, ht]
+    rw [if_pos (by decide)]
+    decide
 
 /-! ## candidate lists: `sort_types` and the priority order -/
 
